@@ -8,11 +8,12 @@ sys.path.insert(0, ROOT)
 props = [json.loads(l) for l in open(os.path.join(ROOT, "properties.jsonl"))]
 na_reasons = json.load(open(os.path.join(ROOT, "tools", "not_applicable.json")))
 repo_hooks = json.load(open(os.path.join(ROOT, "tools", "hooks.json")))
+ready = set(json.load(open(os.path.join(ROOT, "tools", "ready.json"))))   # checks that are finished and silent
 checks, claimed = [], set()
 for path in sorted(glob.glob(os.path.join(ROOT, "checks", "c[0-9][0-9]_*.py"))):
     mod = importlib.import_module("checks." + os.path.basename(path)[:-3])
     m = mod.META
-    if m.get("withdrawn"):
+    if m.get("withdrawn") or m["id"] not in ready:
         continue
     pid = m["id"]
     claimed.add(pid)
